@@ -28,6 +28,10 @@ type (
 		Help      string
 		isComplex bool
 		isFile    FileKind
+
+		// True if the type is a file type (file, path, or a user-defined
+		// file type), or an array or map of one.
+		baseIsFile bool
 	}
 
 	StructType struct {
